@@ -61,7 +61,7 @@ func usedCopyCalls(fn *ssa.Function) []*ssa.Call {
 
 type sumLoop struct {
 	li      *loopInfo
-	counter *ssa.Phi
+	counter ssa.Value
 	list    string // canonical name of the list whose length bounds the counter
 	acc     *ssa.Phi
 	init    int64
@@ -196,7 +196,7 @@ func (c *Ctx) fullCopies0(fn *ssa.Function) map[*ssa.Call]bool {
 var atomNameTok = regexp.MustCompile(`[A-Za-z_][A-Za-z0-9_]*`)
 
 // canonStep renders a step with the loop counter's name replaced, terms ordered by name.
-func canonStep(f *FA, l LF, counter *ssa.Phi) string {
+func canonStep(f *FA, l LF, counter ssa.Value) string {
 	var terms []string
 	for a, k := range l.T {
 		name := atomNameTok.ReplaceAllStringFunc(f.atoms[a].name, func(tok string) string {
@@ -222,8 +222,24 @@ func (c *Ctx) sumLoopsOf(f *FA, li *loopInfo) []sumLoop {
 	if !ok || cmp.Op != token.LSS || !li.body[h.Succs[0]] || li.body[h.Succs[1]] {
 		return nil
 	}
-	counter, ok := cmp.X.(*ssa.Phi)
-	if !ok || counter.Block() != h {
+	// the counter: an index φ 0, +1 tested as i < len(L), or the range form (φ from -1, t = φ + 1 tested and used)
+	var counter ssa.Value
+	var cphi *ssa.Phi
+	rangeForm := false
+	switch cx := cmp.X.(type) {
+	case *ssa.Phi:
+		counter, cphi = cx, cx
+	case *ssa.BinOp:
+		ph, isPhi := cx.X.(*ssa.Phi)
+		one, isK := cx.Y.(*ssa.Const)
+		if cx.Op != token.ADD || !isPhi || !isK || one.Int64() != 1 || cx.Block() != h {
+			return nil
+		}
+		counter, cphi, rangeForm = cx, ph, true
+	default:
+		return nil
+	}
+	if cphi.Block() != h {
 		return nil
 	}
 	lenCall, ok := cmp.Y.(*ssa.Call)
@@ -237,11 +253,16 @@ func (c *Ctx) sumLoopsOf(f *FA, li *loopInfo) []sumLoop {
 		return nil
 	}
 	list := f.canon(lenCall.Call.Args[0])
-	// counter: 0 on entry, +1 on every back edge
-	for i, ed := range counter.Edges {
+	for i, ed := range cphi.Edges {
 		if li.body[h.Preds[i]] {
+			if rangeForm {
+				if ed != counter {
+					return nil
+				}
+				continue
+			}
 			bo, ok := ed.(*ssa.BinOp)
-			if !ok || bo.Op != token.ADD || bo.X != ssa.Value(counter) {
+			if !ok || bo.Op != token.ADD || bo.X != ssa.Value(cphi) {
 				return nil
 			}
 			if k, ok := bo.Y.(*ssa.Const); !ok || k.Int64() != 1 {
@@ -249,7 +270,11 @@ func (c *Ctx) sumLoopsOf(f *FA, li *loopInfo) []sumLoop {
 			}
 			continue
 		}
-		if k, ok := ed.(*ssa.Const); !ok || k.Int64() != 0 {
+		want := int64(0)
+		if rangeForm {
+			want = -1
+		}
+		if k, ok := ed.(*ssa.Const); !ok || k.Int64() != want {
 			return nil
 		}
 	}
@@ -259,7 +284,7 @@ func (c *Ctx) sumLoopsOf(f *FA, li *loopInfo) []sumLoop {
 		if !ok {
 			break
 		}
-		if acc == counter {
+		if acc == cphi {
 			continue
 		}
 		if _, _, isInt := f.typeRange(acc.Type()); !isInt {
